@@ -716,9 +716,15 @@ fn predicate_on(c: &Case, base: &[Out], with: &[u32], out: &[Out], full: bool) -
     if preserve {
         // rendered with its own glyph
         let own = c.font.gid(c.cp);
+        // "rendered with their own glyphs like any other character of their general category": for a format character
+        // (gc Cf; marks may be zeroed by fallback mark positioning) that is the glyph's own hmtx advance, horizontally
+        let cf = matches!(c.cp, 0xAD | 0x061C | 0x180E | 0x200B..=0x200F | 0x202A..=0x202E | 0x2060..=0x2064 | 0x2066..=0x206F | 0xFEFF);
+        let horizontal = matches!(c.dir, Direction::LeftToRight | Direction::RightToLeft);
         return one_extra("preserve", &|g: &Out| {
             if g.gid != own {
                 Err(format!("preserve-own-glyph {}!={}", g.gid, own))
+            } else if cf && horizontal && own != 0 && g.pos[0] != adv_of(own) {
+                Err(format!("preserve-own-advance {}!={}", g.pos[0], adv_of(own)))
             } else {
                 Ok(())
             }
